@@ -9,6 +9,8 @@ TARGET = os.path.join(CACHE, "target")
 VH = os.path.join(TARGET, "debug", "vh")
 VM = os.path.join(ROOT, "ocaml", "_build", "default", "vm.exe")
 REPO = "/repo"
+# mutation experiments (VERIF_REPO=<scratch copy>) write their evidence and replays under VERIF_OUT, never into /verif/evidence
+OUTROOT = os.environ.get("VERIF_OUT", ROOT)
 NPROC = 16
 
 ALLOWED_AXIOMS = {
@@ -373,7 +375,7 @@ class Ctx:
         return None
 
 def write_replay(prop, kind, payload):
-    d = os.path.join(ROOT, "replays")
+    d = os.path.join(OUTROOT, "replays")
     os.makedirs(d, exist_ok=True)
     body = json.dumps({"property": prop, "kind": kind, **payload}, indent=1, sort_keys=True)
     h = hashlib.sha1(body.encode()).hexdigest()[:12]
@@ -417,7 +419,7 @@ def write_evidence(ctx, proof, violations, extra_cov=None, assumptions=None):
         "wall_s": round(time.time() - ctx.t0, 2),
         "violations": violations,
     }
-    d = os.path.join(ROOT, "evidence")
+    d = os.path.join(OUTROOT, "evidence")
     os.makedirs(d, exist_ok=True)
     with open(os.path.join(d, ctx.prop + ".json"), "w") as f:
         json.dump(ev, f, indent=1, sort_keys=True)
